@@ -7,9 +7,14 @@ import (
 	"github.com/crillab/gophersat/solver"
 )
 
-// HistOp is Solve (Con == nil) or AppendClause(Con).
+// HistOp is Solve (Con == nil, Guide == 0), AppendClause(Con), or a GUIDED step (Guide > 0): when the runner reaches it
+// right after a Sat answer it replaces it by up to Guide concrete operations built from the model just returned and from
+// the literals known to be decided at the top level -- constraints the model only just satisfies (one true literal, the
+// others false, preferably false by a top-level fact), followed by the negation of what made them true.  The descriptor
+// written with the case holds the concrete operations only, so that replay and shrinking are deterministic.
 type HistOp struct {
-	Con *Con `json:"con,omitempty"`
+	Con   *Con `json:"con,omitempty"`
+	Guide int  `json:"guide,omitempty"`
 }
 
 type HistCase struct {
@@ -87,6 +92,21 @@ func genC09(r *rand.Rand, idx int, tier string) *HistCase {
 		p.Front = "slicenb"
 	}
 	c := &HistCase{P: p}
+	if r.Intn(3) == 0 {
+		// model-guided history: a few top-level facts first, a Solve, then additions aimed at the model returned
+		cur := p.NbVars()
+		if cur < 1 {
+			cur = 1
+		}
+		for i := r.Intn(3); i > 0; i-- {
+			c.Ops = append(c.Ops, HistOp{Con: &Con{Kind: "clause", Lits: []int{randLit(r, cur)}}})
+		}
+		for i := 1 + r.Intn(3); i > 0; i-- {
+			c.Ops = append(c.Ops, HistOp{}, HistOp{Guide: 2 + r.Intn(3)})
+		}
+		c.Ops = append(c.Ops, HistOp{})
+		return c
+	}
 	nops := 1 + r.Intn(8)
 	cur := p.NbVars()
 	for i := 0; i < nops; i++ {
@@ -106,9 +126,13 @@ func genC09(r *rand.Rand, idx int, tier string) *HistCase {
 	return c
 }
 
-func runC09(e *emitter, idx int, c *HistCase) {
+// opsSx renders the concrete operations of a history (guided steps that were never reached are not part of it).
+func opsSx(c *HistCase) Sx {
 	ops := make([]Sx, 0, len(c.Ops))
 	for _, op := range c.Ops {
+		if op.Guide > 0 {
+			continue
+		}
 		if op.Con == nil {
 			ops = append(ops, L(I(0)))
 		} else if len(clausesOf(op.Con)) > 0 { // a trivially true constraint is not added (see clausesOf): not part of the history
@@ -116,17 +140,122 @@ func runC09(e *emitter, idx int, c *HistCase) {
 			ops = append(ops, Sx{List: append([]Sx{I(1)}, uc.List...)})
 		}
 	}
-	csx := L(c.P.Sx(), Sx{List: ops})
+	return Sx{List: ops}
+}
+
+// guidedOps builds up to k operations aimed at the model m (m[i]: value of variable i+1) and at the top-level facts
+// (fact[v] = +1 / -1: variable v is known true / false at the top level: unit clauses of the history so far).
+func guidedOps(r *rand.Rand, k int, m []bool, fact map[int]int) []HistOp {
+	n := len(m)
+	if n == 0 {
+		return nil
+	}
+	val := func(l int) bool { return m[abs(l)-1] == (l > 0) }
+	var falseByFact, falseFree, trueFree []int
+	for v := 1; v <= n; v++ {
+		for _, l := range []int{v, -v} {
+			switch {
+			case fact[v] != 0 && !val(l):
+				falseByFact = append(falseByFact, l)
+			case fact[v] == 0 && !val(l):
+				falseFree = append(falseFree, l)
+			case fact[v] == 0 && val(l):
+				trueFree = append(trueFree, l)
+			}
+		}
+	}
+	pick := func(xs []int) (int, bool) {
+		if len(xs) == 0 {
+			return 0, false
+		}
+		return xs[r.Intn(len(xs))], true
+	}
+	var out []HistOp
+	for len(out) < k {
+		t, ok := pick(trueFree)
+		if !ok {
+			break
+		}
+		// a constraint that m only just satisfies: t is its only true literal (or one of exactly K true ones)
+		lits := []int{t}
+		used := map[int]bool{abs(t): true}
+		for i := 1 + r.Intn(3); i > 0; i-- {
+			src := falseByFact
+			if len(src) == 0 || r.Intn(4) == 0 {
+				src = falseFree
+			}
+			if l, ok := pick(src); ok && !used[abs(l)] {
+				used[abs(l)] = true
+				lits = append(lits, l)
+			}
+		}
+		r.Shuffle(len(lits), func(i, j int) { lits[i], lits[j] = lits[j], lits[i] })
+		con := &Con{Kind: "clause", Lits: lits}
+		if r.Intn(4) == 0 && len(trueFree) >= 2 {
+			// cardinality: two true literals, at least two required
+			if t2, ok := pick(trueFree); ok && !used[abs(t2)] {
+				con = &Con{Kind: "atleast", Lits: append(append([]int{}, lits...), t2), K: 2}
+			}
+		}
+		out = append(out, HistOp{Con: con})
+		if r.Intn(3) == 0 {
+			out = append(out, HistOp{})
+		}
+		// ... and then what made it true is taken away
+		if r.Intn(5) != 0 {
+			out = append(out, HistOp{Con: &Con{Kind: "clause", Lits: []int{-t}}})
+		}
+		if r.Intn(2) == 0 {
+			break
+		}
+	}
+	return out
+}
+
+func runC09(e *emitter, idx int, c *HistCase) {
+	csx := L(c.P.Sx(), opsSx(c))
 	meta := Meta{Class: c.P.Class + "/" + c.P.Front, Desc: c}
+	guided := false
+	for _, op := range c.Ops {
+		if op.Guide > 0 {
+			guided = true
+		}
+	}
+	if guided {
+		meta.Class = c.P.Class + "-guided/" + c.P.Front
+	}
 	e.begin(idx, csx, meta)
 	var answers []Sx
+	gr := rand.New(rand.NewSource(int64(idx)*7919 + 13))
 	status, msg := guard(caseTimeout, func() {
 		pb, err := c.P.Build()
 		if err != nil {
 			panic(fmt.Sprintf("parse error: %v", err))
 		}
 		s := solver.New(pb)
-		for _, op := range c.Ops {
+		fact := map[int]int{}
+		for _, cl := range c.P.Clauses() {
+			if len(cl) == 1 {
+				fact[abs(cl[0])] = sign(cl[0])
+			}
+		}
+		var lastModel []bool
+		for i := 0; i < len(c.Ops); i++ {
+			op := c.Ops[i]
+			if op.Guide > 0 {
+				// replace the guided step by concrete operations (none when the last answer was not Sat)
+				var conc []HistOp
+				if lastModel != nil {
+					conc = guidedOps(gr, op.Guide, lastModel, fact)
+				}
+				rest := append([]HistOp{}, c.Ops[i+1:]...)
+				c.Ops = append(append(c.Ops[:i:i], conc...), rest...)
+				i--
+				continue
+			}
+			if op.Con != nil && op.Con.Kind == "clause" && len(op.Con.Lits) == 1 {
+				fact[abs(op.Con.Lits[0])] = sign(op.Con.Lits[0])
+			}
 			if op.Con == nil {
 				st := s.Solve()
 				var model []bool
@@ -137,6 +266,7 @@ func runC09(e *emitter, idx int, c *HistCase) {
 					}
 				}
 				answers = append(answers, L(I(verdictCode(st)), Bools(model)))
+				lastModel = model
 			} else {
 				for _, cl := range clausesOf(op.Con) {
 					s.AppendClause(cl)
@@ -145,6 +275,18 @@ func runC09(e *emitter, idx int, c *HistCase) {
 		}
 	})
 	meta.Msg = msg
+	if guided {
+		// the history as it was run: concrete operations only
+		var conc []HistOp
+		for _, op := range c.Ops {
+			if op.Guide == 0 {
+				conc = append(conc, op)
+			}
+		}
+		c.Ops = conc
+		csx = L(c.P.Sx(), opsSx(c))
+		meta.Desc = c
+	}
 	e.emit(csx, Sx{List: append([]Sx{I(status)}, answers...)}, meta)
 	if status == 2 {
 		e.out.Sync()
@@ -256,4 +398,11 @@ func runC10(e *emitter, idx int, c *AssumeCase) {
 		e.out.Sync()
 		panic("timeout: restart")
 	}
+}
+
+func sign(x int) int {
+	if x < 0 {
+		return -1
+	}
+	return 1
 }
